@@ -193,7 +193,7 @@ def maskInner : Nat := 0x761F
 def maskField : Nat := 0x50DF
 def maskMethod : Nat := 0x1DFF
 def maskParam : Nat := 0x9010
-def maskModule : Nat := 0x9010
+def maskModule : Nat := 0x9020
 def maskRequires : Nat := 0x9060
 def maskExports : Nat := 0x9000
 
